@@ -128,7 +128,7 @@ func (e *Engine) sha1UUID(inp []*Term) Slice {
 		added = true
 	}
 	if added {
-		e.modelOK = false
+		e.invalidateModel()
 	}
 	e.sha1Apps = append(e.sha1Apps, app)
 	out := make(Slice, 16)
